@@ -123,6 +123,51 @@ def run(ctx, repo, tier):
     ctx.check(len(cc_calls) >= 1, "FLOW", "C13.sublists.closure", "transitive closure is delegated to connected components "
               "(networkx)", fs.where, "connected_components(G)", witness="no connected_components call")
     check_no_input_mutation(ctx, oa_s, fs, "C13.sublists", ["input_list"])
+    # every sub-list contributes its nodes and its consecutive edges, unconditionally (otherwise the closure is not transitive)
+    builders = [n for n in ast.walk(fs.node) if isinstance(n, ast.FunctionDef) and n is not fs.node and
+                any(isinstance(c, ast.Call) and isinstance(c.func, ast.Attribute) and c.func.attr in ("add_edges_from", "add_edge") for c in ast.walk(n))]
+    ctx.instance("DOM")
+    if len(builders) != 1:
+        ctx.inconclusive("DOM", "C13.sublists.graph", "graph construction of merge_sublists not recognised", fs.where, witness=f"{len(builders)} builder functions")
+    else:
+        b = builders[0]
+        loops = [n for n in b.body if isinstance(n, ast.For)]
+        if len(loops) != 1:
+            ctx.inconclusive("DOM", "C13.sublists.graph", "expected one loop over the sub-lists", fs.where)
+        else:
+            lp = loops[0]
+            part = lp.target.id if isinstance(lp.target, ast.Name) else None
+            top_calls = [st.value for st in lp.body if isinstance(st, ast.Expr) and isinstance(st.value, ast.Call)]
+            nodes_ok = any(isinstance(c.func, ast.Attribute) and c.func.attr == "add_nodes_from" and c.args and src(c.args[0]) == part for c in top_calls)
+            edges_ok = any(isinstance(c.func, ast.Attribute) and c.func.attr == "add_edges_from" and c.args and part in src(c.args[0]) for c in top_calls)
+            skips = [n for n in ast.walk(lp) if isinstance(n, (ast.Continue, ast.Break, ast.Return))]
+            conds = [n for n in lp.body if isinstance(n, ast.If)]
+            if nodes_ok and edges_ok and not skips:
+                ctx.ok("DOM", "C13.sublists.graph", "every sub-list adds its members and its consecutive pairs to the closure graph, "
+                       "unconditionally", fs.where, src(lp)[:160])
+            elif skips or conds:
+                ctx.violate("DOM", "C13.sublists.graph", "some sub-lists are skipped / only conditionally added when the closure graph is built: a "
+                            "sub-list that bridges two groups introduced by earlier sub-lists is lost, so the result depends on the order of "
+                            "the join lists", fs.where, src(lp)[:200],
+                            witness="e.g. [[0,4],[1,2],[2,4]] -> [[0,4],[1,2]] instead of [[0,1,2,4]]")
+            else:
+                ctx.inconclusive("DOM", "C13.sublists.graph", "graph construction idiom not recognised", fs.where, src(lp)[:200])
+    edge_fns = [n for n in ast.walk(fs.node) if isinstance(n, ast.FunctionDef) and n is not fs.node and
+                any(isinstance(c, ast.Yield) for c in ast.walk(n))]
+    if len(edge_fns) == 1:
+        ef = edge_fns[0]
+        ys = [n for n in ast.walk(ef) if isinstance(n, ast.Yield)]
+        floops = [n for n in ef.body if isinstance(n, ast.For)]
+        ok = len(ys) == 1 and len(floops) == 1 and isinstance(ys[0].value, ast.Tuple) and len(ys[0].value.elts) == 2 and \
+            not any(isinstance(n, (ast.If, ast.Continue, ast.Break)) for n in ast.walk(floops[0]))
+        if ok:
+            cur = floops[0].target.id if isinstance(floops[0].target, ast.Name) else None
+            a, b2 = (src(x) for x in ys[0].value.elts)
+            upd = [n for n in floops[0].body if isinstance(n, ast.Assign) and isinstance(n.targets[0], ast.Name) and src(n.value) == cur]
+            ok = cur in (a, b2) and bool(upd) and upd[0].targets[0].id in (a, b2) and upd[0].targets[0].id != cur
+        ctx.instance("DOM")
+        ctx.check(ok, "DOM", "C13.sublists.edges", "the edges of a sub-list are all consecutive pairs (a chain connecting every member)", fs.where,
+                  src(ef)[-160:], witness="edge generator is conditional or does not chain consecutive members")
 
     # ------------------------------------------------------------ merge_matrix_cells
     oa_m = OrdAnalysis(repo, fm).run()
